@@ -89,7 +89,10 @@ theorem diffSiblings_self (S : Schema) (d : Bool) : ∀ (fuel : Nat) (top : Bool
       unfold phase1Step
       by_cases hd : (a.flags.dflt && !d) = true
       · simp [hd]
-      · simp only [hd, Bool.false_eq_true, if_false, hfind a i hp, hnu, hg, Option.bind_some, plainAttrs_self]
+      · have hpp : phase1Plain S d l {} a (some i) = {} := by
+          unfold phase1Plain
+          simp only [hg, Option.bind_some, plainAttrs_self]
+        simp only [hd, Bool.false_eq_true, if_false, hfind a i hp, hnu, hg, Option.bind_some, hpp]
         -- the recursion into the pair (a, a)
         cases a with
         | term s f m v => simp [wrapParent, noKeys, DNode.kids, diffSiblings_self S d fuel false [] rfl rfl]
